@@ -1,4 +1,5 @@
 import Amgcl.Model.RelaxIlu
+import Amgcl.Model.RelaxIluk
 import Amgcl.Proofs.RelaxIlu
 import Amgcl.Proofs.KernelsCommon
 import Mathlib.Algebra.BigOperators.Intervals
@@ -544,6 +545,483 @@ theorem iluRow_spec (n : Nat) (U : Array (Row K)) (D : Vec K) (i : Nat) (r : Row
       ring
 
 end row
+
+section rowcols
+variable {K : Type} [Field K] [DecidableEq K]
+
+/-- the new rows live on the pattern of the row of `A` -/
+theorem iluRow_cols (n : Nat) (U : Array (Row K)) (D : Vec K) (i : Nat) (r : Row K) (l u : Row K) (d : K)
+    (h : iluRow n U D i r = .ok (l, d, u)) :
+    (∀ cv ∈ l, cv.1 ∈ r.map (·.1)) ∧ (∀ cv ∈ u, cv.1 ∈ r.map (·.1)) := by
+  unfold iluRow at h
+  simp only [] at h
+  cases he : iluElim U D i (iluWork n r) (r.map (·.1)) (r.map (·.2)).toArray with
+  | precondition => rw [he] at h; exact absurd h (by simp)
+  | undefinedInput => rw [he] at h; exact absurd h (by simp)
+  | ok w =>
+    rw [he] at h
+    simp only [] at h
+    injection h with h
+    have hl := (congrArg Prod.fst h).symm
+    have hu := (congrArg (fun t => t.2.2) h).symm
+    simp only [] at hl hu
+    constructor
+    · intro cv hcv; rw [hl, List.mem_filter] at hcv; exact (List.of_mem_zip hcv.1).1
+    · intro cv hcv; rw [hu, List.mem_filter] at hcv; exact (List.of_mem_zip hcv.1).1
+
+/-- the elimination loop succeeds only if it meets the diagonal column -/
+theorem iluElim_diag (U : Array (Row K)) (D : Vec K) (i : Nat) (work : Array (Option Nat)) (cols : List Nat)
+    (w w' : Array K) (h : iluElim U D i work cols w = .ok w') : i ∈ cols := by
+  induction cols generalizing w with
+  | nil => simp [iluElim] at h
+  | cons c rest ih =>
+    unfold iluElim at h
+    by_cases hic : i ≤ c
+    · rw [if_pos hic] at h
+      by_cases hne : c ≠ i
+      · rw [if_pos hne] at h; exact absurd h (by simp)
+      · have : c = i := not_not.mp hne
+        rw [this]; exact List.mem_cons_self
+    · rw [if_neg hic] at h
+      cases hw : work.getD c none with
+      | none => rw [hw] at h; exact absurd h (by simp)
+      | some p => rw [hw] at h; exact List.mem_cons_of_mem _ (ih _ h)
+
+theorem iluRow_diag (n : Nat) (U : Array (Row K)) (D : Vec K) (i : Nat) (r : Row K) (ldu : Row K × K × Row K)
+    (h : iluRow n U D i r = .ok ldu) : i ∈ r.map (·.1) := by
+  unfold iluRow at h
+  simp only [] at h
+  cases he : iluElim U D i (iluWork n r) (r.map (·.1)) (r.map (·.2)).toArray with
+  | precondition => rw [he] at h; exact absurd h (by simp)
+  | undefinedInput => rw [he] at h; exact absurd h (by simp)
+  | ok w => exact iluElim_diag _ _ _ _ _ _ _ he
+
+end rowcols
+
+/-! ### 6. the row loop -/
+section loop
+variable {K : Type} [Field K] [DecidableEq K]
+
+theorem getD_push_lt {α : Type} (a : Array α) (x d : α) (k : Nat) (h : k < a.size) :
+    (a.push x).getD k d = a.getD k d := by
+  unfold Array.getD
+  have h' : k < (a.push x).size := by simp; omega
+  rw [dif_pos h', dif_pos h]
+  exact Array.getElem_push_lt h
+
+theorem getD_push_eq {α : Type} (a : Array α) (x d : α) : (a.push x).getD a.size d = x := by
+  unfold Array.getD
+  simp
+
+/-- the invariant of the row loop after `i` rows -/
+structure IluInv (A : CRS K) (F : IluFactors K) (i : Nat) : Prop where
+  sizeL : F.L.rows.size = i
+  sizeU : F.U.rows.size = i
+  sizeD : F.D.size = i
+  lower : ∀ k, k < i → ∀ cv ∈ F.L.rows.getD k [], cv.1 < k
+  upper : ∀ k, k < i → ∀ cv ∈ F.U.rows.getD k [], k < cv.1 ∧ cv.1 < A.nrows
+  pivot : ∀ k, k < i → F.D.getD k 0 ≠ 0
+  diag : ∀ k, k < i → k ∈ (A.row k).map (·.1)
+  subL : ∀ k, k < i → ∀ cv ∈ F.L.rows.getD k [], cv.1 ∈ (A.row k).map (·.1)
+  subU : ∀ k, k < i → ∀ cv ∈ F.U.rows.getD k [], cv.1 ∈ (A.row k).map (·.1)
+  rowEq : ∀ k, k < i → ∀ cv ∈ A.row k,
+    (if cv.1 = k then 1 / F.D.getD k 0 else 0) + rowGet (F.U.rows.getD k []) cv.1
+      + (if cv.1 < k then rowGet (F.L.rows.getD k []) cv.1 * (1 / F.D.getD cv.1 0) else 0)
+      + ∑ k' ∈ range k, rowGet (F.L.rows.getD k []) k' * ugetA F.U.rows k' cv.1 = cv.2
+
+theorem ugetA_push_lt (U : Array (Row K)) (x : Row K) (k c : Nat) (h : k < U.size) :
+    ugetA (U.push x) k c = ugetA U k c := by
+  unfold ugetA; rw [getD_push_lt _ _ _ _ h]
+
+/-- one more row keeps the invariant -/
+theorem IluInv.step (A : CRS K) (hs : ∀ i, K2.StrictCols (A.row i)) (hwf : ∀ i, ∀ cv ∈ A.row i, cv.1 < A.nrows)
+    (F : IluFactors K) (i : Nat) (hinv : IluInv A F i) (l u : Row K) (d : K)
+    (h : iluRow A.nrows F.U.rows F.D i (A.row i) = .ok (l, d, u)) :
+    IluInv A { L := { F.L with rows := F.L.rows.push l }, U := { F.U with rows := F.U.rows.push u },
+               D := F.D.push d } (i + 1) := by
+  have hU : ∀ k, ∀ cv ∈ F.U.rows.getD k [], k < cv.1 := by
+    intro k cv hcv
+    by_cases hk : k < i
+    · exact (hinv.upper k hk cv hcv).1
+    · rw [getD_of_size_le _ _ _ (by rw [hinv.sizeU]; omega)] at hcv; cases hcv
+  obtain ⟨h1, h2, h3, h4⟩ := iluRow_spec A.nrows F.U.rows F.D i (A.row i) (hs i) (hwf i) hU hinv.pivot l u d h
+  have eL : ∀ k, k < i → (F.L.rows.push l).getD k [] = F.L.rows.getD k [] :=
+    fun k hk => getD_push_lt _ _ _ _ (by rw [hinv.sizeL]; exact hk)
+  have eU : ∀ k, k < i → (F.U.rows.push u).getD k [] = F.U.rows.getD k [] :=
+    fun k hk => getD_push_lt _ _ _ _ (by rw [hinv.sizeU]; exact hk)
+  have eD : ∀ k, k < i → (F.D.push d).getD k 0 = F.D.getD k 0 :=
+    fun k hk => getD_push_lt _ _ _ _ (by rw [hinv.sizeD]; exact hk)
+  have eLi : (F.L.rows.push l).getD i [] = l := by rw [← hinv.sizeL]; exact getD_push_eq _ _ _
+  have eUi : (F.U.rows.push u).getD i [] = u := by rw [← hinv.sizeU]; exact getD_push_eq _ _ _
+  have eDi : (F.D.push d).getD i 0 = d := by rw [← hinv.sizeD]; exact getD_push_eq _ _ _
+  have eug : ∀ k c, k < i → ugetA (F.U.rows.push u) k c = ugetA F.U.rows k c :=
+    fun k c hk => ugetA_push_lt _ _ _ _ (by rw [hinv.sizeU]; exact hk)
+  obtain ⟨c1, c2⟩ := iluRow_cols A.nrows F.U.rows F.D i (A.row i) l u d h
+  refine ⟨by simp [hinv.sizeL], by simp [hinv.sizeU], by simp [hinv.sizeD], ?_, ?_, ?_, ?_, ?_, ?_, ?_⟩
+  · intro k hk cv hcv
+    rcases Nat.lt_or_eq_of_le (Nat.le_of_lt_succ hk) with hk' | hk'
+    · simp only [] at hcv; rw [eL k hk'] at hcv; exact hinv.lower k hk' cv hcv
+    · subst hk'; simp only [] at hcv; rw [eLi] at hcv; exact h1 cv hcv
+  · intro k hk cv hcv
+    rcases Nat.lt_or_eq_of_le (Nat.le_of_lt_succ hk) with hk' | hk'
+    · simp only [] at hcv; rw [eU k hk'] at hcv; exact hinv.upper k hk' cv hcv
+    · subst hk'; simp only [] at hcv; rw [eUi] at hcv; exact h2 cv hcv
+  · intro k hk
+    rcases Nat.lt_or_eq_of_le (Nat.le_of_lt_succ hk) with hk' | hk'
+    · simp only []; rw [eD k hk']; exact hinv.pivot k hk'
+    · subst hk'; simp only []; rw [eDi]; exact h3
+  · intro k hk
+    rcases Nat.lt_or_eq_of_le (Nat.le_of_lt_succ hk) with hk' | hk'
+    · exact hinv.diag k hk'
+    · subst hk'; exact iluRow_diag _ _ _ _ _ _ h
+  · intro k hk cv hcv
+    rcases Nat.lt_or_eq_of_le (Nat.le_of_lt_succ hk) with hk' | hk'
+    · simp only [] at hcv; rw [eL k hk'] at hcv; exact hinv.subL k hk' cv hcv
+    · subst hk'; simp only [] at hcv; rw [eLi] at hcv; exact c1 cv hcv
+  · intro k hk cv hcv
+    rcases Nat.lt_or_eq_of_le (Nat.le_of_lt_succ hk) with hk' | hk'
+    · simp only [] at hcv; rw [eU k hk'] at hcv; exact hinv.subU k hk' cv hcv
+    · subst hk'; simp only [] at hcv; rw [eUi] at hcv; exact c2 cv hcv
+  · intro k hk cv hcv
+    simp only []
+    rcases Nat.lt_or_eq_of_le (Nat.le_of_lt_succ hk) with hk' | hk'
+    · rw [eD k hk', eU k hk', eL k hk']
+      have := hinv.rowEq k hk' cv hcv
+      rw [← this]
+      congr 1
+      · congr 1
+        by_cases hc : cv.1 < k
+        · rw [if_pos hc, if_pos hc, eD cv.1 (by omega)]
+        · rw [if_neg hc, if_neg hc]
+      · apply sum_congr rfl
+        intro k' hk''
+        rw [eug k' cv.1 (by have := mem_range.mp hk''; omega)]
+    · subst hk'
+      rw [eDi, eUi, eLi]
+      have := h4 cv hcv
+      rw [← this]
+      congr 1
+      · congr 1
+        by_cases hc : cv.1 < k
+        · rw [if_pos hc, eD cv.1 hc]
+        · rw [if_neg hc, rowGet_zero_of_forall_ne l cv.1 (fun e he heq => hc (heq ▸ h1 e he))]; ring
+      · apply sum_congr rfl
+        intro k' hk''
+        rw [eug k' cv.1 (mem_range.mp hk'')]
+
+theorem iluLoop_spec (A : CRS K) (hs : ∀ i, K2.StrictCols (A.row i)) (hwf : ∀ i, ∀ cv ∈ A.row i, cv.1 < A.nrows)
+    (len i : Nat) (F G : IluFactors K) (hinv : IluInv A F i)
+    (h : iluLoop A (List.range' i len) F = .ok G) : IluInv A G (i + len) ∧ G.L.ncols = F.L.ncols ∧ G.U.ncols = F.U.ncols := by
+  induction len generalizing i F with
+  | zero =>
+    simp only [List.range'_zero, iluLoop] at h
+    injection h with h; subst h; exact ⟨hinv, rfl, rfl⟩
+  | succ m ih =>
+    rw [List.range'_succ] at h
+    unfold iluLoop at h
+    cases hr : iluRow A.nrows F.U.rows F.D i (A.row i) with
+    | precondition => rw [hr] at h; exact absurd h (by simp)
+    | undefinedInput => rw [hr] at h; exact absurd h (by simp)
+    | ok ldu =>
+      obtain ⟨l, d, u⟩ := ldu
+      rw [hr] at h
+      simp only [] at h
+      have := ih (i + 1) _ (IluInv.step A hs hwf F i hinv l u d hr) h
+      refine ⟨by rw [show i + (m + 1) = i + 1 + m by omega]; exact this.1, this.2.1, this.2.2⟩
+
+theorem rowGet_of_mem_nodup (r : Row K) (hn : (r.map (·.1)).Nodup) (cv : Nat × K) (h : cv ∈ r) :
+    rowGet r cv.1 = cv.2 := by
+  induction r with
+  | nil => cases h
+  | cons a t ih =>
+    simp only [List.map_cons, List.nodup_cons] at hn
+    rw [rowGet_cons]
+    rcases List.mem_cons.mp h with he | ht
+    · rw [he, if_pos rfl, rowGet_zero_of_forall_ne t a.1 ?_]; · ring
+      intro e he' heq
+      exact hn.1 (heq ▸ List.mem_map.mpr ⟨e, he', rfl⟩)
+    · have hne : a.1 ≠ cv.1 := by
+        intro heq
+        exact hn.1 (heq ▸ List.mem_map.mpr ⟨cv, ht, rfl⟩)
+      rw [if_neg hne]; exact ih hn.2 ht
+
+/-- everything the constructor guarantees when it succeeds -/
+theorem ilu0Factor_inv (A : CRS K) (hA : A.WF) (hsq : A.ncols = A.nrows) (hs : A.sortedb = true)
+    (F : IluFactors K) (hF : ilu0Factor A = .ok F) :
+    IluInv A F A.nrows ∧ F.L.ncols = A.nrows ∧ F.U.ncols = A.nrows := by
+  have hs' := K2.sortedb_iff.mp hs
+  have hwf : ∀ i, ∀ cv ∈ A.row i, cv.1 < A.nrows := by
+    intro i cv hcv; rw [← hsq]; exact K2.row_col_lt hA i hcv
+  unfold ilu0Factor at hF
+  rw [List.range_eq_range'] at hF
+  have h0 : IluInv A ({ L := ⟨A.nrows, #[]⟩, U := ⟨A.nrows, #[]⟩, D := #[] } : IluFactors K) 0 :=
+    ⟨rfl, rfl, rfl, fun k hk => absurd hk (by omega), fun k hk => absurd hk (by omega),
+     fun k hk => absurd hk (by omega), fun k hk => absurd hk (by omega), fun k hk => absurd hk (by omega),
+     fun k hk => absurd hk (by omega), fun k hk => absurd hk (by omega)⟩
+  have := iluLoop_spec A hs' hwf A.nrows 0 _ F h0 hF
+  simpa using this
+
+end loop
+
+/-! ### 7. the theorem in the vocabulary of `lowEntry` / `upEntry` -/
+section final
+variable {K : Type} [Field K] [DecidableEq K]
+
+theorem sum_range_restrict (f : Nat → K) (i n : Nat) (h : i ≤ n) (hz : ∀ k, i ≤ k → k < n → f k = 0) :
+    ∑ k ∈ range n, f k = ∑ k ∈ range i, f k := by
+  rw [← Finset.sum_range_add_sum_Ico f h]
+  have : ∑ k ∈ Ico i n, f k = 0 := by
+    apply sum_eq_zero; intro k hk; rw [mem_Ico] at hk; exact hz k hk.1 hk.2
+  rw [this, add_zero]
+
+/-- the structural facts about the factors of a successful ILU(0) -/
+theorem ilu0Factor_wf (A : CRS K) (hA : A.WF) (hsq : A.ncols = A.nrows) (hs : A.sortedb = true)
+    (F : IluFactors K) (hF : ilu0Factor A = .ok F) :
+    strictLowerb F.L = true ∧ strictUpperb F.U = true ∧ F.L.WF ∧ F.U.WF ∧ F.L.nrows = A.nrows ∧ F.L.ncols = A.nrows
+    ∧ F.U.nrows = A.nrows ∧ F.U.ncols = A.nrows ∧ F.D.size = A.nrows ∧ ∀ i, i < A.nrows → F.D.getD i 0 ≠ 0 := by
+  obtain ⟨inv, hLc, hUc⟩ := ilu0Factor_inv A hA hsq hs F hF
+  have hLn : F.L.nrows = A.nrows := inv.sizeL
+  have hUn : F.U.nrows = A.nrows := inv.sizeU
+  refine ⟨?_, ?_, ?_, ?_, hLn, hLc, hUn, hUc, inv.sizeD, inv.pivot⟩
+  · unfold strictLowerb
+    rw [List.all_eq_true]; intro i hi
+    rw [List.all_eq_true]; intro cv hcv
+    have hi' : i < A.nrows := by rw [← hLn]; exact List.mem_range.mp hi
+    simpa using inv.lower i hi' cv hcv
+  · unfold strictUpperb
+    rw [List.all_eq_true]; intro i hi
+    rw [List.all_eq_true]; intro cv hcv
+    have hi' : i < A.nrows := by rw [← hUn]; exact List.mem_range.mp hi
+    simpa using (inv.upper i hi' cv hcv).1
+  · rw [K2.wf_iff_row]
+    intro i hi cv hcv
+    have hi' : i < A.nrows := by rw [← hLn]; exact hi
+    have := inv.lower i hi' cv hcv
+    rw [hLc]; omega
+  · rw [K2.wf_iff_row]
+    intro i hi cv hcv
+    have hi' : i < A.nrows := by rw [← hUn]; exact hi
+    rw [hUc]; exact (inv.upper i hi' cv hcv).2
+
+/-- **ILU(0) reproduces `A` on the pattern of `A`.** -/
+theorem ilu0_on_pattern_aux (A : CRS K) (hA : A.WF) (hsq : A.ncols = A.nrows) (hs : A.sortedb = true)
+    (F : IluFactors K) (hF : ilu0Factor A = .ok F) (i : Nat) (hi : i < A.nrows) (cv : Nat × K) (hcv : cv ∈ A.row i) :
+    ∑ k ∈ range A.nrows, lowEntry F i k * upEntry F k cv.1 = A.get i cv.1 := by
+  obtain ⟨inv, _, _⟩ := ilu0Factor_inv A hA hsq hs F hF
+  have hc : cv.1 < A.nrows := by rw [← hsq]; exact K2.row_col_lt hA i hcv
+  have hnd : ((A.row i).map (·.1)).Nodup := (K2.sortedb_iff.mp hs i).nodup
+  have hget : A.get i cv.1 = cv.2 := rowGet_of_mem_nodup _ hnd cv hcv
+  have hLz : ∀ k, i ≤ k → F.L.get i k = 0 := by
+    intro k hk
+    unfold CRS.get CRS.row
+    apply rowGet_zero_of_forall_ne
+    intro e he heq
+    have := inv.lower i hi e he
+    omega
+  have hUz : ∀ c, c ≤ i → F.U.get i c = 0 := by
+    intro c hc'
+    unfold CRS.get CRS.row
+    apply rowGet_zero_of_forall_ne
+    intro e he heq
+    have := (inv.upper i hi e he).1
+    omega
+  rw [hget, ← inv.rowEq i hi cv hcv]
+  -- expand the product of the two sums `(δ + L)(δ/D + U)`
+  have hexp : ∀ k ∈ range A.nrows, lowEntry F i k * upEntry F k cv.1
+      = (if i = k then upEntry F k cv.1 else 0)
+        + (if k = cv.1 then F.L.get i k * (1 / F.D.getD k 0) else 0)
+        + F.L.get i k * F.U.get k cv.1 := by
+    intro k _
+    unfold lowEntry upEntry
+    by_cases h1 : i = k
+    · by_cases h2 : k = cv.1
+      · simp only [if_pos h1, if_pos h2]; ring
+      · simp only [if_pos h1, if_neg h2]; ring
+    · by_cases h2 : k = cv.1
+      · simp only [if_neg h1, if_pos h2]; ring
+      · simp only [if_neg h1, if_neg h2]; ring
+  rw [sum_congr rfl hexp, sum_add_distrib, sum_add_distrib, sum_ite_eq, if_pos (mem_range.mpr hi),
+    sum_ite_eq', if_pos (mem_range.mpr hc)]
+  rw [sum_range_restrict (fun k => F.L.get i k * F.U.get k cv.1) i A.nrows (Nat.le_of_lt hi)
+    (fun k hk _ => by rw [hLz k hk]; ring)]
+  unfold upEntry
+  have e1 : (if i = cv.1 then 1 / F.D.getD i 0 else 0) = (if cv.1 = i then 1 / F.D.getD i 0 else 0) := by
+    by_cases h : i = cv.1
+    · rw [if_pos h, if_pos h.symm]
+    · rw [if_neg h, if_neg (fun e => h e.symm)]
+  have e2 : F.L.get i cv.1 * (1 / F.D.getD cv.1 0)
+      = (if cv.1 < i then rowGet (F.L.rows.getD i []) cv.1 * (1 / F.D.getD cv.1 0) else 0) := by
+    by_cases h : cv.1 < i
+    · rw [if_pos h]; rfl
+    · rw [if_neg h, hLz cv.1 (by omega)]; ring
+  rw [e1, e2]
+  rfl
+
+end final
+
+/-! ### 8. exactness when the pattern is closed under fill-in -/
+section exact
+variable {K : Type} [Field K] [DecidableEq K]
+
+theorem patOf_iff (A : CRS K) (i j : Nat) : patOf A i j = true ↔ j ∈ (A.row i).map (·.1) := by
+  unfold patOf
+  rw [List.any_eq_true]
+  constructor
+  · rintro ⟨cv, hcv, he⟩; exact List.mem_map.mpr ⟨cv, hcv, by simpa using he⟩
+  · intro h; obtain ⟨cv, hcv, he⟩ := List.mem_map.mp h; exact ⟨cv, hcv, by simpa using he⟩
+
+theorem noFill_spec (A : CRS K) (h : noFillb A = true) (i k j : Nat) (hi : i < A.nrows)
+    (hik : k ∈ (A.row i).map (·.1)) (hki : k < i) (hkj : j ∈ (A.row k).map (·.1)) (hkj' : k < j) :
+    j ∈ (A.row i).map (·.1) := by
+  unfold noFillb at h
+  rw [List.all_eq_true] at h
+  have h1 := h i (List.mem_range.mpr hi)
+  rw [List.all_eq_true] at h1
+  obtain ⟨ck, hck, hck'⟩ := List.mem_map.mp hik
+  have h2 := h1 ck hck
+  have hck'' : ck.1 = k := hck'
+  rw [hck''] at h2
+  simp only [hki, decide_true, Bool.not_true, Bool.false_or] at h2
+  rw [List.all_eq_true] at h2
+  obtain ⟨cj, hcj, hcj'⟩ := List.mem_map.mp hkj
+  have h3 := h2 cj hcj
+  have hcj'' : cj.1 = j := hcj'
+  rw [hcj''] at h3
+  simp only [hkj', decide_true, Bool.not_true, Bool.false_or] at h3
+  exact (patOf_iff A i j).mp h3
+
+/-- if the pattern of `A` is closed under fill-in, ILU(0) is the exact LU factorisation: `(I+L)(D⁻¹+U) = A` -/
+theorem ilu0_exact_aux (A : CRS K) (hA : A.WF) (hsq : A.ncols = A.nrows) (hs : A.sortedb = true)
+    (hnf : noFillb A = true) (F : IluFactors K) (hF : ilu0Factor A = .ok F) (i j : Nat) (hi : i < A.nrows)
+    (hj : j < A.nrows) :
+    ∑ k ∈ range A.nrows, lowEntry F i k * upEntry F k j = A.get i j := by
+  by_cases hp : j ∈ (A.row i).map (·.1)
+  · obtain ⟨cv, hcv, he⟩ := List.mem_map.mp hp
+    have he' : cv.1 = j := he
+    rw [← he']
+    exact ilu0_on_pattern_aux A hA hsq hs F hF i hi cv hcv
+  · obtain ⟨inv, _, _⟩ := ilu0Factor_inv A hA hsq hs F hF
+    have hA0 : A.get i j = 0 := by
+      unfold CRS.get
+      apply rowGet_zero_of_forall_ne
+      intro e he heq
+      exact hp (heq ▸ List.mem_map.mpr ⟨e, he, rfl⟩)
+    have hij : i ≠ j := fun e => hp (e ▸ inv.diag i hi)
+    have hLget : ∀ i' c, i' < A.nrows → c ∉ (A.row i').map (·.1) → F.L.get i' c = 0 := by
+      intro i' c hi' hc
+      unfold CRS.get CRS.row
+      apply rowGet_zero_of_forall_ne
+      intro e he heq
+      exact hc (heq ▸ inv.subL i' hi' e he)
+    have hUget : ∀ i' c, i' < A.nrows → c ∉ (A.row i').map (·.1) → F.U.get i' c = 0 := by
+      intro i' c hi' hc
+      unfold CRS.get CRS.row
+      apply rowGet_zero_of_forall_ne
+      intro e he heq
+      exact hc (heq ▸ inv.subU i' hi' e he)
+    have hLlow : ∀ k, i ≤ k → F.L.get i k = 0 := by
+      intro k hk
+      unfold CRS.get CRS.row
+      apply rowGet_zero_of_forall_ne
+      intro e he heq
+      have := inv.lower i hi e he; omega
+    have hUup : ∀ k c, k < A.nrows → c ≤ k → F.U.get k c = 0 := by
+      intro k c hk hc
+      unfold CRS.get CRS.row
+      apply rowGet_zero_of_forall_ne
+      intro e he heq
+      have := (inv.upper k hk e he).1; omega
+    rw [hA0]
+    apply sum_eq_zero
+    intro k hk
+    have hk' := mem_range.mp hk
+    unfold lowEntry upEntry
+    by_cases hik : i = k
+    · subst hik
+      rw [if_pos rfl, if_neg hij, hLlow i (le_refl _), hUget i j hi hp]; ring
+    · rw [if_neg hik]
+      by_cases hkj : k = j
+      · subst hkj
+        rw [hLget i k hi hp]; ring
+      · rw [if_neg hkj]
+        -- a product `L_ik U_kj` with `(i,j)` outside the pattern vanishes because the pattern has no fill
+        by_cases hl : k ∈ (A.row i).map (·.1) ∧ k < i
+        · by_cases hu : j ∈ (A.row k).map (·.1) ∧ k < j
+          · exact absurd (noFill_spec A hnf i k j hi hl.1 hl.2 hu.1 hu.2) hp
+          · have : F.U.get k j = 0 := by
+              by_cases h1 : j ∈ (A.row k).map (·.1)
+              · exact hUup k j hk' (Nat.le_of_not_lt (fun h2 => hu ⟨h1, h2⟩))
+              · exact hUget k j hk' h1
+            rw [this]; ring
+        · have : F.L.get i k = 0 := by
+            by_cases h1 : k ∈ (A.row i).map (·.1)
+            · exact hLlow k (Nat.le_of_not_lt (fun h2 => hl ⟨h1, h2⟩))
+            · exact hLget i k hi h1
+          rw [this]; ring
+
+end exact
+
+/-! ### 9. ILUP = ILU(0) of the padded matrix -/
+section pad
+variable {K : Type} [Field K] [DecidableEq K]
+
+theorem padPattern_row (pat : Nat → Nat → Bool) (A : CRS K) (i : Nat) (hi : i < A.nrows) :
+    (padPattern pat A).row i
+      = (List.range A.nrows).filterMap (fun j => if pat i j then some (j, A.get i j) else none) := by
+  unfold CRS.row padPattern
+  simp only []
+  rw [getD_ofFn_lt _ _ _ hi]
+
+theorem padPattern_nrows (pat : Nat → Nat → Bool) (A : CRS K) : (padPattern pat A).nrows = A.nrows := by
+  simp [padPattern, CRS.nrows]
+
+theorem padPattern_mem (pat : Nat → Nat → Bool) (A : CRS K) (i : Nat) (hi : i < A.nrows) (cv : Nat × K) :
+    cv ∈ (padPattern pat A).row i ↔ cv.1 < A.nrows ∧ pat i cv.1 = true ∧ cv.2 = A.get i cv.1 := by
+  rw [padPattern_row pat A i hi, List.mem_filterMap]
+  constructor
+  · rintro ⟨j, hj, he⟩
+    by_cases hp : pat i j = true
+    · rw [if_pos hp] at he
+      have := Option.some.inj he
+      rw [← this]
+      exact ⟨List.mem_range.mp hj, hp, rfl⟩
+    · rw [if_neg hp] at he; exact absurd he (by simp)
+  · rintro ⟨h1, h2, h3⟩
+    refine ⟨cv.1, List.mem_range.mpr h1, ?_⟩
+    rw [if_pos h2, ← h3]
+
+theorem padPattern_wf (pat : Nat → Nat → Bool) (A : CRS K) (hsq : A.ncols = A.nrows) : (padPattern pat A).WF := by
+  rw [K2.wf_iff_row]
+  intro i hi cv hcv
+  rw [padPattern_nrows] at hi
+  have := (padPattern_mem pat A i hi cv).mp hcv
+  show cv.1 < A.ncols
+  rw [hsq]; exact this.1
+
+theorem padPattern_sorted (pat : Nat → Nat → Bool) (A : CRS K) : (padPattern pat A).sortedb = true := by
+  rw [K2.sortedb_iff]
+  intro i
+  by_cases hi : i < A.nrows
+  · rw [padPattern_row pat A i hi]
+    unfold K2.StrictCols
+    apply List.Pairwise.filterMap _ _ List.pairwise_lt_range
+    intro a a' haa b hb b' hb'
+    by_cases h1 : pat i a = true
+    · by_cases h2 : pat i a' = true
+      · rw [if_pos h1] at hb; rw [if_pos h2] at hb'
+        rw [← Option.some.inj hb, ← Option.some.inj hb']; exact haa
+      · rw [if_neg h2] at hb'; exact absurd hb' (by simp)
+    · rw [if_neg h1] at hb; exact absurd hb (by simp)
+  · rw [K2.row_eq_nil_of_ge _ (by rw [padPattern_nrows]; omega)]; exact List.Pairwise.nil
+
+/-- the padded matrix denotes `A` on the padding pattern -/
+theorem padPattern_get (pat : Nat → Nat → Bool) (A : CRS K) (i j : Nat) (hi : i < A.nrows) (hj : j < A.nrows)
+    (hp : pat i j = true) : (padPattern pat A).get i j = A.get i j := by
+  have hmem : (j, A.get i j) ∈ (padPattern pat A).row i := (padPattern_mem pat A i hi _).mpr ⟨hj, hp, rfl⟩
+  have hnd := (K2.sortedb_iff.mp (padPattern_sorted pat A) i).nodup
+  exact rowGet_of_mem_nodup _ hnd _ hmem
+
+end pad
 
 end Relax
 end Amgcl
